@@ -513,3 +513,108 @@ class C05(QueryFamily):
     def nontrivial(self, case, io):
         rows = parse_rows(io['off'])
         return not isinstance(rows, str) and len(rows) > 0 and io.get('cache_retrievals', 0) > 0
+
+
+class C11(QueryFamily):
+    pid = 'C11'
+    ordered = False
+    rule = ("rules infer(entity(H(h0=e0, ..., hn=en), body)) built in rule mode over 1-3 rule variables: the constructor arguments are "
+            "rule variables, attribute chains / indexes / method calls over them and constants (0, '', None, False included), in any "
+            "order, and together mention every rule variable; bodies: random condition trees (conjunction, disjunction over equal and "
+            "different variable sets, negation, none at all, unsatisfiable); observed: for every constructed object its class, that it is "
+            "a NEW object, and its field values with heap objects compared by identity; the rows are compared as sequences with the model "
+            "and as MULTISETS with the specification (one instance per satisfying assignment), caching off and on, evaluated twice; "
+            "non-trivial = some but not all assignments satisfy the body")
+    explanation = ("C11_one_per_assignment / C11_fields_from_one_assignment are proved over the P-model (selected expressions = constructor "
+                   "arguments, bound one after the other); tie = constructed field tuples against the model")
+
+    def budget(self, tier):
+        return {'quick': 400, 'thorough': 6000, 'search': 1}.get(tier, 400)
+
+    def gen(self, rng, i, tier):
+        nv = rng.choice([1, 1, 2, 2, 3])
+        c = gen_query.gen_case(rng, nvars=nv, falsy=True, neg=True, maxdepth=rng.choice([1, 2, 3]), select='all', dom_max=4 if nv < 3 else 3)
+        if rng.random() < 0.12:
+            c['cond'] = None
+        keys = [k for k, _ in c['doms']]
+        g = gen_query.Gen(rng, nv)
+        g.keys = keys
+        head = []
+        for k in keys:                                   # every rule variable is mentioned by the head
+            r = rng.random()
+            if r < 0.6:
+                head.append(['var', k])
+            else:
+                head.append(['map', ['f', gen_query.F[rng.choice(['a', 'b', 's', 'n', 'f', 'items', 'peer'])]], ['var', k]])
+        while len(head) < 4 and rng.random() < 0.55:
+            r = rng.random()
+            if r < 0.3:
+                head.append(['lit', rng.choice([0, '', None, False, 1, 'u', [1, 2]])])
+            elif r < 0.7:
+                head.append(['map', ['f', gen_query.F[rng.choice(['a', 'b', 's', 'n', 'f', 'items', 'peer', 'big()'])]], ['var', rng.choice(keys)]])
+            elif r < 0.85:
+                head.append(['map', ['i', rng.randrange(2)], ['map', ['f', gen_query.F['pair']], ['var', rng.choice(keys)]]])
+            else:
+                head.append(['var', rng.choice(keys)])
+        rng.shuffle(head)
+        c['sel'] = head[:4]
+        # make sure the shuffle/truncation kept every variable mentioned
+        mentioned = set()
+        for t in c['sel']:
+            term_keys(t, mentioned)
+        for k in keys:
+            if k not in mentioned:
+                c['sel'][rng.randrange(len(c['sel']))] = ['var', k]
+                mentioned = set()
+                for t in c['sel']:
+                    term_keys(t, mentioned)
+        c['binders'] = [['var', k] for k in keys]
+        c['form'] = 'infer'
+        c['infer'] = True
+        return c
+
+    def within_hypotheses(self, case):
+        mentioned = set()
+        for t in case['sel']:
+            term_keys(t, mentioned)
+        return all(k in mentioned for k, _ in case['doms'])
+
+    def view(self, case, rows, strict):
+        rows = parse_rows(rows)
+        if isinstance(rows, str):
+            return rows
+        return ('multiset', sorted(rows))
+
+    def canon(self, case, io):
+        r = parse_rows(io['off'])
+        tie = r if isinstance(r, str) else ('seq', r)
+        return tie, tuple(self.view(case, io[k], True) for k in self.observed())
+
+    def tie_view(self, case, mo):
+        r = parse_rows(mo)
+        return r if isinstance(r, str) else ('seq', r)
+
+    def nontrivial(self, case, io):
+        rows = parse_rows(io['off'])
+        if isinstance(rows, str):
+            return False
+        total = 1
+        for k, d in case['doms']:
+            total *= len(d)
+        return 0 < len(rows) < total
+
+    def stats(self, case, io):
+        d = super().stats(case, io)
+        for t in case['sel']:
+            d['head_arg_' + t[0]] += 1
+            if t[0] == 'lit' and not t[1]:
+                d['head_falsy_constant'] += 1
+        rows = parse_rows(io['off'])
+        if not isinstance(rows, str):
+            d['instances_built'] += len(rows)
+        return d
+
+    def normalise(self, case):
+        d = QueryFamily.normalise(self, case)
+        d['form'] = 'infer'
+        return d
